@@ -203,7 +203,8 @@ EvLists(e) ==
   \cup PFail("from_list_nested", /\ e.bool_nested = [ g \in DOMAIN e.lsts |-> FromListBool(e.lsts[g], e.ctx) ]
                                  /\ e.int_nested = [ g \in DOMAIN e.lsts |-> FromListInt(e.lsts[g], e.ctx) ])
   \cup PFail("to_list", e.to_list = ToList(e.arr, e.vars))
-  \cup PFail("to_list_nested", e.to_list_nested = [ g \in DOMAIN e.arrs |-> ToList(e.arrs[g], e.vars) ])
+  \cup PFail("to_list_nested", e.to_list_nested = [ g \in DOMAIN e.arrs |-> ToList(e.arrs[g], e.vars) ]
+                                 /\ (("zarrs" \in DOMAIN e) => e.to_list_zero = [ g \in DOMAIN e.zarrs |-> ToList(e.zarrs[g], e.vars) ]))
 EvSplitAb(e) ==
   PFail("split_Ab", /\ e.b = [ i \in DOMAIN e.matrix |-> e.matrix[i][1] ]
                     /\ e.A = [ i \in DOMAIN e.matrix |-> Tail(e.matrix[i]) ]
